@@ -53,12 +53,17 @@ fn ess_case(ctx: &Ctx, rep: &mut Report, case: u64, g: &mut Sm64) {
     let mon = "ess";
     let sig = "split_rhat_mean_ess ess";
     let c = if g.chance(0.15) { 1 } else { g.range(1, 16) };
-    let n = pick_n(g, 4, if ctx.thorough { 5000 } else { 2000 });
+    let n = if g.chance(0.04) { g.range(2100, 3200) } else { pick_n(g, 4, if ctx.thorough { 5000 } else { 2000 }) };
     let p = g.range(1, if n > 1000 { 3 } else { 8 });
     let gen = generate(g, c, n, p, false, 10.0);
     let arr = to_array(&gen.data);
     rep.eval();
-    let ess = match guard(|| split_rhat_mean_ess(arr.view()).1) {
+    // the diagnostics may be computed from inside any thread pool (1..3 threads: several
+    // parameters share a worker)
+    let threads = *g.choose(&[1usize, 2, 3, 16]);
+    rep.count(&format!("pool_threads[{threads}]"));
+    let pool = rayon::ThreadPoolBuilder::new().num_threads(threads).build().unwrap();
+    let ess = match guard(|| pool.install(|| split_rhat_mean_ess(arr.view()).1)) {
         Ok(r) => r,
         Err(m) => {
             rep.violation(&format!("{sig} panic"), mon, case, json!({"c": c, "n": n, "p": p, "panic": m}));
